@@ -79,7 +79,7 @@ def unit_error_rendering():
 
 
 def keep(name, ob):
-    return True
+    return "/C11/" not in name  # what a front-end returns is C11's business
 
 
 def run(tier, seed, only=None):
